@@ -629,11 +629,22 @@ fn compare_twins(w: &World, what: &str, t1: &yrs::Doc, t2: &yrs::Doc, desc: &str
 
 /// some block id is live in one payload and a tombstone (collected content) in another
 fn tombstone_dup(ps: &[Rc<Payload>]) -> bool {
-    let sets: Vec<Vec<(yrs::ID, u32, &'static str)>> = ps
+    tombstone_dup_with(ps, None)
+}
+
+/// ... or in the stash of the document the payloads are applied to
+fn tombstone_dup_with(ps: &[Rc<Payload>], base: Option<&yrs::Doc>) -> bool {
+    let mut sets: Vec<Vec<(yrs::ID, u32, &'static str)>> = ps
         .iter()
         .filter_map(|p| Update::decode_v1(&p.v1).ok())
         .map(|u| yrs::verif::update_blocks(&u))
         .collect();
+    if let Some(doc) = base {
+        let t = doc.transact();
+        if let Some(p) = t.store().pending_update() {
+            sets.push(yrs::verif::update_blocks(&p.update));
+        }
+    }
     let dead = |k: &str| k == "deleted" || k == "gc";
     for (i, a) in sets.iter().enumerate() {
         for (j, b) in sets.iter().enumerate() {
@@ -696,7 +707,8 @@ fn relay_algebra(w: &mut World, n: usize, a: &[u64]) -> VResult {
     }
     // known finding F20 is identified by its input shape: two payloads carry the same block, one
     // with live content and one as a tombstone (content already garbage collected at its sender)
-    let id = if tombstone_dup(&ps) { "relay.merge-tombstone-dup" } else { "relay.merge" };
+    let lossy = tombstone_dup_with(&ps, Some(&w.nodes[n].doc));
+    let id = if lossy { "relay.merge-tombstone-dup" } else { "relay.merge" };
     compare_twins(w, id, &t1, &t2, &format!("merge_updates of {} payloads (mode {}) vs. applying them one by one on clones of node {}", ps.len(), mode & 7, n))?;
     // 2. two nestings / orders of the same multiset are equivalent
     let merged_b = match merge_payloads(&ps, mode ^ 3) {
@@ -709,7 +721,7 @@ fn relay_algebra(w: &mut World, n: usize, a: &[u64]) -> VResult {
     if let Err(e) = apply_payload(&t1c, &merged_b, enc) {
         return Err(viol("relay.merge", format!("cannot apply a merge: {}", e)));
     }
-    compare_twins(w, if tombstone_dup(&ps) { "relay.merge-tombstone-dup" } else { "relay.merge-order" }, &t1b, &t1c, "two argument orders / nestings of the same multiset of payloads")?;
+    compare_twins(w, if lossy { "relay.merge-tombstone-dup" } else { "relay.merge-order" }, &t1b, &t1c, "two argument orders / nestings of the same multiset of payloads")?;
     // 3. diff_updates(u, sv(twin)) == u
     let t3 = clone_from(w, n)?;
     let t4 = clone_from(w, n)?;
